@@ -106,6 +106,14 @@ impl Block {
     }
 }
 
+#[cfg(feature = "__verif")]
+impl Block {
+    /// The scalar carry-less multiplication, independent of runtime dispatch.
+    pub(crate) fn verif_scalar_clmul128(a: u128, b: u128) -> (u128, u128) {
+        scalar::clmul128(a, b)
+    }
+}
+
 #[cfg(any(target_arch = "x86", target_arch = "x86_64"))]
 mod clmul {
     #[cfg(target_arch = "x86")]
